@@ -10,7 +10,7 @@ from engine.absarray import Model
 from engine.absops import NONTRIVIAL, PYERR, TABLES, Spec, World, partner, specs
 from engine.layout import LayoutError
 from engine.loader import AnalysisError
-from engine.minieval import Obj, Raised, Unsupported
+from engine.minieval import Diverges, Obj, Raised, Unsupported
 from rules.sem_layout import Witness, ixdesc
 
 SKIP = ("qr", "svd", "eigh", "solve", "phase_sync", "copy", "constructor", "odd charge", "fill_missing")
@@ -47,19 +47,24 @@ def _lazy_job(state, sp):
             outs = []
             for synced in (False, True):
                 ev = w.ev()
-                x = sp.build(w)
-                ys = [o.build(w) for o in others]
-                if synced:
-                    x = w.meth(ev, x, "phase_sync")
-                    ys = [w.meth(ev, y, "phase_sync") for y in ys]
                 try:
+                    x = sp.build(w)
+                    ys = [o.build(w) for o in others]
+                    if synced:
+                        x = w.meth(ev, x, "phase_sync")
+                        ys = [w.meth(ev, y, "phase_sync") for y in ys]
                     outs.append(observable(w, ev, fn(ev, x, *ys)))
+                except Diverges:
+                    outs.append(("does not terminate", synced))
                 except Raised as e:
                     outs.append(("refused", getattr(e, "exc_name", None)))
                 except (PYERR + (LayoutError,)) as e:
                     # a failure that does not depend on the sign table is not this rule's business (C01 / C02 report it)
                     outs.append(("fails", type(e).__name__))
             wit.tick("R09.5")
+            if any(isinstance(o, tuple) and o and o[0] == "does not terminate" for o in outs):
+                wit.bad(f"R09.5|{name.split(' ')[0]}|{anchor.fq}", f"{where}: the evaluation does not terminate (loop bound exceeded)")
+                break  # every further program would hit the same loop
             if outs[0] != outs[1]:
                 wit.bad(f"R09.5|{name.split(' ')[0]}|{anchor.fq}", f"{where}: the result with pending signs differs from the result on the synchronised array")
         except Unsupported as e:
@@ -86,12 +91,16 @@ def check_lazy_equivalence(prog, ctx):
             if sp.duals not in pats or (nd == 4 and sp.drop == "none"):
                 continue
         cases.append(sp)
+    import os
+
+    if os.environ.get("VERIF_SELFTEST"):
+        cases = cases[::3]  # armed-ness runs (one per corpus variant) use a third of the family
     wits, n = {}, 0
     for wmap, cnt in pmap(_lazy_job, (prog, tier), cases):
         for k, v in wmap.items():
             wits.setdefault(k, v)
         n += cnt.get("R09.5", 0)
-    ctx.need(n >= 500 or wits, f"R09.5: only {n} twin evaluations")
+    ctx.need(n >= (150 if os.environ.get("VERIF_SELFTEST") else 500) or wits, f"R09.5: only {n} twin evaluations")
     sync = prog.func("symmray.fermionic_core:FermionicArray.phase_sync")
     if not wits:
         ctx.check(True, "R09.5", sync, sync.node, "twins",
